@@ -11,17 +11,17 @@ EXTENDS Proto, Json
 
 CONSTANTS MaxLen,       \* script length per connection
           Alpha,        \* "full" | "core" | "tok"
-          OomGate,      \* flush_max = 0: a big value is refused while a write buffer is non-empty
+          OomGates,     \* subset of BOOLEAN; TRUE: flush_max = 0, a big value is refused while a write buffer is non-empty
           PrintAlpha
 
 BC == 100   \* body_c_str
 BB == 300   \* body_big
 BM == 600   \* body_max
 
-K(cls, name) == [cls |-> cls, name |-> name, id |-> cls \o ":" \o name, klen |-> 5]
+K(cls, name) == [cls |-> cls, name |-> name, id |-> cls \o ":" \o name, klen |-> IF name = "kl" THEN 240 ELSE 5]
 
 Base(verb) == [verb |-> verb, keys |-> <<>>, nf |-> "none", nc |-> "ok", size |-> "na", n |-> 0, content |-> "plain",
-               vid |-> "", flag |-> 0, rev |-> 0, delta |-> 0, noreply |-> FALSE, fault |-> "none", cut |-> "none",
+               vid |-> "", flag |-> 0, ccomp |-> FALSE, rev |-> 0, delta |-> 0, noreply |-> FALSE, fault |-> "none", cut |-> "none",
                hl |-> 10, tl |-> 10, got |-> 10]
 
 SizeOf(sz) == CASE sz = "z" -> 0 [] sz = "small" -> 5 [] sz = "eqc" -> BC [] sz = "gtc" -> BC + 1
@@ -61,6 +61,7 @@ StoreCmds ==
   \cup {St(v, K("plain", "kh"), "gtc") : v \in {"set", "append", "prepend"}}
   \* keys
   \cup {St("set", kr, "small") : kr \in PlainKeys \cup OddKeys} \cup {St("set", K("unserved", ""), "gtc")}
+  \cup {St("set", K("plain", "kl"), "z"), St("set", K("plain", "kl"), "small"), Nr(St("add", K("plain", "kl"), "z"))}
   \* sizes
   \cup {St("set", K("plain", "km"), sz) : sz \in {"z", "small", "eqc", "gtc", "big", "huge"}}
   \cup {Nr(St("set", K("plain", "km"), sz)) : sz \in {"big", "huge"}} \cup {St("append", K("plain", "km"), "huge")}
@@ -108,6 +109,7 @@ Core ==
    Get1("get", K("meta", "kh")), Get1("get", K("long", "")),
    SetBase, St("set", K("plain", "kh"), "gtc"), Nr(SetBase), St("set", K("plain", "km"), "big"), St("set", K("plain", "km"), "huge"),
    St("set", K("ctrl", ""), "small"), St("append", K("plain", "km"), "gtc"), St("prepend", K("plain", "km"), "small"),
+   St("set", K("plain", "kl"), "z"),
    Num(SetBase, "flags", "nonnum"), Num(SetBase, "exptime", "neg"), Num(SetBase, "bytes", "negwrap"), Num(SetBase, "flags", "resv"),
    Flt(SetBase, "badterm"), Flt(SetBase, "bodyshort"), WithCut(SetBase, "body"), WithCut(SetBase, "line"),
    Del(K("plain", "kh")), Del(K("unserved", "")), Inc("incr", K("plain", "km"), 5), Inc("incr", K("plain", "kh"), 5),
@@ -130,10 +132,10 @@ Ref0 == [k \in KeyNames |->
            IF k = "kh" THEN [st |-> "live", vid |-> "v0", flag |-> 7, ver |-> 1, len |-> 5, isnum |-> FALSE, num |-> 0]
            ELSE IF k = "kt" THEN [NoRef EXCEPT !.st = "tomb", !.ver = -2]
            ELSE NoRef]
-State0 == [ref |-> Ref0, backlog |-> OomGate, junk |-> FALSE,
-           cf |-> [oomgate |-> OomGate, bodyc |-> BC, bodybig |-> BB, bodymax |-> BM, disk |-> FALSE]]
+State0(g) == [ref |-> Ref0, backlog |-> g, junk |-> FALSE, fresh |-> TRUE,
+              cf |-> [oomgate |-> g, bodyc |-> BC, bodybig |-> BB, bodymax |-> BM, disk |-> FALSE]]
 
-MCInit == \E scripts \in [Conns -> Scripts] : MInit(scripts, State0)
+MCInit == \E scripts \in [Conns -> Scripts], g \in OomGates : MInit(scripts, State0(g))
 MCSpec == MCInit /\ [][MNext]_mvars
 
 \* the alphabet for the orchestrator
